@@ -1,6 +1,8 @@
 """C07 - the result does not depend on how the input is delivered (reader clauses)."""
 import sys
 
+from sa import crosslist as XL
+from sa import rules_fault as RF
 from sa import report, rules_reader as RR, rules_read as RD, rules_order as RO
 from sa import rules_extra as RX
 
@@ -26,6 +28,9 @@ def run(ctx, repo):
     ctx.call(RX.r_decoded_unmodified, repo)
     ctx.call(RX.r_buffer_encapsulated, repo)
     ctx.call(RX.r_stale_snapshot, repo)
+    ctx.call(RF.r_append_only_stream, repo)
+    XL.reader_positions(ctx, repo)
+
 
 if __name__ == '__main__':
     sys.exit(report.main('C07', 'other', run))
